@@ -293,8 +293,11 @@ static void write_elf_text_and_data(
   string_table_append(elf, name);
   elf->sections_offset.text = file.tell();
 
-  for (i = memory->low_address; i <= memory->high_address; i++)
+  // 64 bit counter: high_address can be 0xffffffff and a 32 bit one would wrap.
+  for (uint64_t a = memory->low_address; a <= memory->high_address; a++)
   {
+    i = (uint32_t)a;
+
     file.write_int8(memory->read8(i));
   }
 
